@@ -13,17 +13,19 @@ import (
 )
 
 type specEnv struct {
-	ex         *Exec
-	f          *frame // function whose scope names resolve in
-	st         *State
-	old        *State
-	vars       map[string]Val
-	oldVars    map[string]Val
-	cellsFirst bool
-	bound      map[string]T
-	inOld      bool
-	qn         *int
-	pkg        *ssa.Package
+	ex           *Exec
+	f            *frame // function whose scope names resolve in
+	st           *State
+	old          *State
+	vars         map[string]Val
+	oldVars      map[string]Val
+	cellsFirst   bool
+	bound        map[string]T
+	inOld        bool
+	qn           *int
+	pkg          *ssa.Package
+	freshExcl    []T  // at a call site: fresh(x) also means distinct from the caller's earlier allocations
+	collectFresh *[]T // at a call site: objects the callee guarantees fresh join the caller's fresh set
 }
 
 func (f *frame) baseEnv(st, old *State) *specEnv {
@@ -317,7 +319,7 @@ func (e *specEnv) memOf(s VSlice) []T {
 
 func (e *specEnv) readElemPure(s VSlice, idx T) Val {
 	m := e.memOf(s)
-	at := tAdd(s.Off, idx)
+	at := tIdx(s.Off, idx)
 	comps := make([]T, len(m))
 	for i, c := range m {
 		comps[i] = tSel(c, at)
@@ -334,6 +336,13 @@ func (e *specEnv) field(b Val, name string) Val {
 			if u.Field(i).Name() == name {
 				return e.ex.heapLoadPure(e.cur(), v.St, i, v.T)
 			}
+		}
+		if gk := namedKey(v.St) + ".$" + name; e.ex.prog.heapSorts[gk] != nil {
+			arr := e.ex.ghostArr(e.cur(), gk)
+			if e.ex.prog.heapSorts[gk][0] == arrOf(SBool) {
+				return VBool{tSel(arr, v.T)}
+			}
+			return VInt{tSel(arr, v.T)}
 		}
 		e.fail("no field %s in %s", name, v.St)
 	case VStruct:
@@ -353,6 +362,9 @@ func (e *specEnv) field(b Val, name string) Val {
 }
 
 func (ex *Exec) heapLoadPure(st *State, n *types.Named, field int, ref T) Val {
+	if in, ok := ex.embeddedType(n, field); ok {
+		return VRef{embRef(ref, field), in}
+	}
 	arr := ex.heapArr(st, n, field)
 	comps := make([]T, len(arr))
 	for i, a := range arr {
@@ -493,7 +505,7 @@ func (e *specEnv) sameElems(a, b VSlice) T {
 	q := fmt.Sprintf("se_q%d", *e.qn)
 	var cs []T
 	for i := range ma {
-		cs = append(cs, tEq(tSel(ma[i], tAdd(a.Off, q)), tSel(mb[i], tAdd(b.Off, q))))
+		cs = append(cs, tEq(tSel(ma[i], tIdx(a.Off, q)), tSel(mb[i], tIdx(b.Off, q))))
 	}
 	return tAnd(tEq(a.Len, b.Len), tForall(q, tImp(tAnd(tLe("0", q), tLt(q, a.Len)), tAnd(cs...))))
 }
@@ -511,7 +523,7 @@ func (e *specEnv) seqEqLit(a, b VSlice) T {
 	mb := e.memOf(b)[0]
 	cs := []T{tEq(b.Len, num(int64(len(a.Lit))))}
 	for i, c := range a.Lit {
-		cs = append(cs, tEq(tSel(mb, tAdd(b.Off, num(int64(i)))), num(int64(c))))
+		cs = append(cs, tEq(tSel(mb, tIdx(b.Off, num(int64(i)))), num(int64(c))))
 	}
 	return tAnd(cs...)
 }
@@ -525,13 +537,13 @@ func prefixTerm(ex *Exec, ms T, s VSlice, mp T, p VSlice) T {
 	if p.HasLit {
 		cs := []T{tLe(num(int64(len(p.Lit))), s.Len)}
 		for i, c := range p.Lit {
-			cs = append(cs, tEq(tSel(ms, tAdd(s.Off, num(int64(i)))), num(int64(c))))
+			cs = append(cs, tEq(tSel(ms, tIdx(s.Off, num(int64(i)))), num(int64(c))))
 		}
 		return tAnd(cs...)
 	}
 	q := ex.decls.fresh("hp_q", SInt) // used as bound name; declared but harmless
 	return tAnd(tLe(p.Len, s.Len), tForall(q, tImp(tAnd(tLe("0", q), tLt(q, p.Len)),
-		tEq(tSel(ms, tAdd(s.Off, q)), tSel(mp, tAdd(p.Off, q))))))
+		tEq(tSel(ms, tIdx(s.Off, q)), tSel(mp, tIdx(p.Off, q))))))
 }
 
 func (e *specEnv) callSpec(n *ECall) Val {
@@ -542,6 +554,11 @@ func (e *specEnv) callSpec(n *ECall) Val {
 		switch v := argv(0).(type) {
 		case VSlice:
 			return VInt{v.Len}
+		case VMap:
+			if !v.Unknown {
+				return VInt{num(int64(len(v.Keys)))}
+			}
+			return VInt{app(ex.decls.fun("maplen", []string{SInt}, SInt), v.ID)}
 		}
 		e.fail("len of non-slice")
 	case "cap":
@@ -617,13 +634,22 @@ func (e *specEnv) callSpec(n *ECall) Val {
 		v := e.eval(n.Args[1])
 		e.st = saved
 		return v
+	case "HEAPTOP":
+		return VInt{ex.heapTop()}
 	case "u32":
 		return VInt{tModC(e.evalInt(n.Args[0]), pow2(32))}
 	case "int":
 		return VInt{e.evalInt(n.Args[0])}
 	case "fresh":
 		r := argv(0).(VRef)
-		return VBool{tLt(ex.heapTop(), r.T)}
+		cs := []T{tLt(ex.heapTop(), r.T)}
+		for _, o := range e.freshExcl {
+			cs = append(cs, tNe(r.T, o))
+		}
+		if e.collectFresh != nil {
+			*e.collectFresh = append(*e.collectFresh, r.T)
+		}
+		return VBool{tAnd(cs...)}
 	case "allocated":
 		r := argv(0).(VRef)
 		return VBool{tAnd(tLt("0", r.T), tLe(r.T, ex.heapTop()))}
@@ -642,6 +668,12 @@ func (e *specEnv) callSpec(n *ECall) Val {
 		}
 		raw := argv(1).(VSlice)
 		return VBool{app(fn, id, e.memOf(raw)[0], raw.Off, raw.Len, e.evalInt(n.Args[2]))}
+	}
+	// cast of an integer to a reference of a heap-modelled struct type: MIME(r)
+	for hk, nt := range ex.prog.heapTypes {
+		if strings.HasSuffix(hk, "."+n.Fn) && len(n.Args) == 1 {
+			return VRef{e.evalInt(n.Args[0]), nt}
+		}
 	}
 	if uf, ok := ex.prog.ufuns[n.Fn]; ok {
 		var args []T
@@ -665,13 +697,24 @@ func (e *specEnv) callSpec(n *ECall) Val {
 		for i := range n.Args {
 			vals[i] = argv(i)
 		}
+		savedBound := map[string]T{}
 		for i, p := range sfn.Params {
 			if v, ok := e.vars[p]; ok {
 				saved[p] = v
 				had[p] = true
 			}
 			e.vars[p] = vals[i]
+			// parameters shadow quantified variables of the same name in the caller
+			if b, ok := e.bound[p]; ok {
+				savedBound[p] = b
+				delete(e.bound, p)
+			}
 		}
+		defer func() {
+			for k, v := range savedBound {
+				e.bound[k] = v
+			}
+		}()
 		// spec bodies must not see loop-local cells: evaluate with explicit bindings first
 		out := e.eval(sfn.Body)
 		for _, p := range sfn.Params {
